@@ -176,6 +176,54 @@ def main():
     except Exception:
         import traceback
         h.corr_fail("headers-vs-model", {"error": traceback.format_exc()[-1500:]})
+    # ---- the FITS-to-TOAST workflow over SEVERAL images far apart on the sky: the root tile and the data set description carry the
+    # range of ALL leaves, whichever image holds the extremes and whichever comes last
+    try:
+        import toasty
+        import warnings as _w
+        from astropy.io import fits as afits
+        from astropy.wcs import WCS
+        from toasty.pyramid import PyramidIO, Pos
+        for oi, order in enumerate(((0, 1), (1, 0))):
+            basem = os.path.join(root, f"multi{oi}")
+            os.makedirs(basem)
+            specs = [((40.0, 35.0), 100.0, 200.0), ((215.0, -40.0), -5.0, 5.0)]
+            paths = []
+            for j_, ((ra_, dec_), lo_, hi_) in enumerate(specs):
+                w_ = WCS(naxis=2)
+                w_.wcs.ctype = ["RA---TAN", "DEC--TAN"]
+                w_.wcs.crval = [ra_, dec_]
+                w_.wcs.crpix = [24.5, 24.5]
+                w_.wcs.cdelt = [-0.5, 0.5]
+                dat_ = np.linspace(lo_, hi_, 48 * 48, dtype=np.float32).reshape((48, 48))
+                pth_ = os.path.join(basem, f"im{j_}.fits")
+                afits.PrimaryHDU(dat_, header=w_.to_header()).writeto(pth_, overwrite=True)
+                paths.append(pth_)
+            with _w.catch_warnings():
+                _w.simplefilter("ignore")
+                odir, bld = toasty.tile_fits([paths[i] for i in order], out_dir=os.path.join(basem, "out"), tiling_method=toasty.TilingMethod.TOAST, parallel=1, start=3)
+            pio_m = PyramidIO(odir, default_format="fits")
+            lo_all, hi_all = np.inf, -np.inf
+            for x in range(8):
+                for y in range(8):
+                    im_ = pio_m.read_image(Pos(3, x, y))
+                    if im_ is not None:
+                        a_ = im_.asarray()
+                        if np.any(np.isfinite(a_)):
+                            lo_all, hi_all = min(lo_all, float(np.nanmin(a_))), max(hi_all, float(np.nanmax(a_)))
+            with afits.open(pio_m.tile_path(Pos(0, 0, 0), makedirs=False)) as hd_:
+                rmin, rmax = float(hd_[0].header["DATAMIN"]), float(hd_[0].header["DATAMAX"])
+            h.case(("tile_fits-toast-multi", order))
+            h.count("workflow", "tile_fits-toast-2-images")
+            tol = 1e-4 * max(1.0, abs(hi_all - lo_all))
+            if abs(rmin - lo_all) > tol or abs(rmax - hi_all) > tol:
+                h.violation("workflow:root-range", f"tile_fits([{', '.join('image %d' % i for i in order)}], TOAST, start=3): the root tile records DATAMIN/DATAMAX = ({rmin}, {rmax}); the level-3 tiles beneath it span ({lo_all}, {hi_all})",
+                            input={"order": list(order), "ranges": [[100.0, 200.0], [-5.0, 5.0]]}, observed=[rmin, rmax])
+            elif abs(float(bld.imgset.data_min) - lo_all) > tol or abs(float(bld.imgset.data_max) - hi_all) > tol:
+                h.violation("workflow:wtml-range", f"tile_fits over two images: the data set description says ({bld.imgset.data_min}, {bld.imgset.data_max}), the leaves span ({lo_all}, {hi_all})", input={"order": list(order)})
+    except Exception as e:
+        import traceback
+        h.violation("workflow:crash", f"multi-image tile_fits raised {type(e).__name__}: {e}", input="tile_fits", observed=traceback.format_exc()[-500:])
     finally:
         shutil.rmtree(root, ignore_errors=True)
     h.assumptions.append("leaf values are finite or NaN (±inf is outside the property's quantifier and is not generated)")
